@@ -987,3 +987,134 @@ def check_import_guard(ck, prog, config, clause, fn_name='zck_get_chunk_data', c
               '%s() is skipped depending on which chunk is requested (%s): a request for that chunk leaves the reader '
               'positioned, and the load done by the next request starts from that stale position' % (callee, show(bad.e)[:60]),
               c.file, c.line, config=config)
+
+
+# ------------------------------------------------------------------ R7.no-forward-seek
+def check_no_forward_seek(ck, prog, config, clause, roots, what, tool_unit=None):
+    """On an output path the file offset moves forward only by writing.  A relative seek with a non-zero distance
+    (lseek / seek_data with SEEK_CUR) in a function below `roots` (or in the tool's main) steps over bytes that were
+    produced but not stored: a "keep the output sparse" shortcut leaves a hole that is never materialised when it
+    comes last, and leaves stale bytes in place when the target already holds data.  The wrappers seek_data() and
+    tell_data() themselves are exempt (they forward their caller's arguments)."""
+    from ..ir import calls_in, callee_name, const_value
+    from ..program import all_exprs
+    funcs = []
+    if roots:
+        rf = [prog.need_func(r) for r in roots]
+        seen, _ = prog.reachable_calls(rf)
+        funcs += [prog.funcs[q] for q in seen]
+    if tool_unit:
+        funcs += [f for f in prog.funcs.values() if f.unit.endswith(tool_unit)]
+    bad = []
+    n = 0
+    for f in funcs:
+        if f.name in ('seek_data', 'tell_data') or f.body is None:
+            continue
+        for ex in all_exprs(f):
+            for c in calls_in(ex):
+                nm = callee_name(c)
+                if nm in ('lseek', 'lseek64', 'seek_data', 'fseek', 'fseeko') and len(c.a) >= 4:
+                    n += 1
+                    whence = const_value(c.a[3])
+                    off = const_value(c.a[2])
+                    if whence == 1 and off != 0:          # SEEK_CUR with a distance that is not the constant 0
+                        bad.append((f, c, nm))
+    ck.ob(clause, 'R7.no-forward-seek', what, 'relative-seek', not bad,
+          '%d function(s) on the path, %d seek call(s): none moves the offset by a relative, non-zero distance (the '
+          'offset advances only by writing)' % (len(funcs), n) if not bad else
+          '%s() steps over bytes with %s(..., SEEK_CUR) instead of storing them: when the skipped bytes come last the '
+          'output ends early, and where the target already holds other data it keeps it' % (bad[0][0].name, bad[0][2]),
+          bad[0][1].file if bad else None, bad[0][1].line if bad else 0, config=config)
+    return len(funcs)
+
+
+# ------------------------------------------------------------------ R7.temp-unique
+def check_temp_unique(ck, prog, config, clause):
+    """The library creates files only through mkstemp()/mkostemp()/tmpfile(): the name is chosen by the C library to
+    be unique per call.  A name built from the process id, a descriptor number, a counter or the time can be chosen
+    twice by two contexts of one process (open(O_CREAT|O_EXCL) then fails for the second one), so creating the
+    temporary file is no longer independent of what other contexts do."""
+    from ..ir import calls_in, callee_name, const_value
+    from ..program import all_exprs
+    makers = []
+    bad = []
+    for f in prog.lib_funcs():
+        if f.body is None:
+            continue
+        for ex in all_exprs(f):
+            for c in calls_in(ex):
+                nm = callee_name(c)
+                if nm in ('mkstemp', 'mkostemp', 'mkstemps', 'tmpfile'):
+                    makers.append((f, c))
+                elif nm in ('open', 'open64', 'openat', 'creat'):
+                    fl = const_value(c.a[2]) if len(c.a) > 2 else None
+                    if nm == 'creat' or fl is None or (fl & 0o100):
+                        bad.append((f, c, nm))
+                elif nm in ('fopen', 'freopen', 'mktemp', 'tmpnam', 'tempnam'):
+                    bad.append((f, c, nm))
+    ck.require(len(makers) >= 1 or bad, 'no mkstemp()/tmpfile() call left in the library: how the temporary file is '
+               'created is not recognised')
+    ck.ob(clause, 'R7.temp-unique', 'library', 'file-creation', not bad,
+          '%d file-creating call(s) in the library, all mkstemp()/tmpfile() (unique name per call)' % len(makers)
+          if not bad else '%s() creates a file with %s() under a name the library builds itself: two contexts of one '
+          'process can choose the same name, and the second creation fails (or, without O_EXCL, shares the file)'
+          % (bad[0][0].name, bad[0][2]), bad[0][1].file if bad else makers[0][1].file,
+          bad[0][1].line if bad else makers[0][1].line, config=config)
+    return len(makers) + len(bad)
+
+
+# ------------------------------------------------------------------ R7.header-name-case
+def check_header_name_case(ck, prog, config, clause, roots=('zck_header_cb',)):
+    """HTTP field names are case-insensitive (HTTP/2 and HTTP/3 deliver them in lower case).  Below the header callback
+    the response text is matched only through the compiled patterns (REG_ICASE, checked by C17/C05-h) or through
+    case-insensitive comparisons: a case-sensitive comparison of the callback data with a literal that contains letters
+    (strncmp, strcmp, memcmp, strstr) makes a well-formed answer from such a server unparseable."""
+    from ..ir import calls_in, callee_name, strip
+    from ..program import all_exprs
+    rf = [prog.need_func(r) for r in roots]
+    seen, _ = prog.reachable_calls(rf)
+    bad = []
+    n = 0
+    for q in seen:
+        f = prog.funcs[q]
+        if f.body is None or not ('/dl/' in f.unit or f.unit.endswith('dl.c')):
+            continue
+        for ex in all_exprs(f):
+            for c in calls_in(ex):
+                nm = callee_name(c)
+                if nm in ('strncmp', 'strcmp', 'memcmp', 'strstr', 'bcmp', 'strchr', 'strncasecmp', 'strcasecmp',
+                          'strcasestr'):
+                    lits = [strip(a) for a in c.a[1:] if strip(a) is not None and strip(a).k == 'str']
+                    # a local or file-scope array / pointer initialised from a literal
+                    from ..ir import walk_stmts as _ws
+                    for a in c.a[1:]:
+                        sa = strip(a)
+                        if sa is not None and sa.k == 'var':
+                            for st in _ws(f.body):
+                                if st.k == 'decl' and st.var is not None and st.var.decl == sa.decl and st.e is not None:
+                                    ie = strip(st.e)
+                                    while ie is not None and ie.k == 'init' and len(ie.a) == 1:
+                                        ie = strip(ie.a[0])
+                                    if ie is not None and ie.k == 'str':
+                                        lits.append(ie)
+                            for g in prog.globals:
+                                if g.name == sa.op and g.unit == f.unit and getattr(g, 'init', None) is not None:
+                                    ie = strip(g.init)
+                                    while ie is not None and ie.k == 'init' and len(ie.a) == 1:
+                                        ie = strip(ie.a[0])
+                                    if ie is not None and ie.k == 'str':
+                                        lits.append(ie)
+                    if not lits:
+                        continue
+                    n += 1
+                    if nm in ('strncmp', 'strcmp', 'memcmp', 'strstr', 'bcmp') and \
+                            any(any(ch.isalpha() for ch in (l.val or '')) for l in lits):
+                        bad.append((f, c, nm, [l.val for l in lits]))
+    ck.ob(clause, 'R7.header-name-case', 'header callback', 'literal-compare', not bad,
+          '%d function(s) below %s in the download unit: no case-sensitive comparison of response text with a literal '
+          'that contains letters (%d literal comparison(s))' % (len(seen), ', '.join(roots), n) if not bad else
+          '%s() compares the response header with %r through %s(): field names are case-insensitive, so an answer with '
+          'another spelling (HTTP/2 delivers lower case) is not recognised and its body is taken for plain data'
+          % (bad[0][0].name, bad[0][3][0], bad[0][2]), bad[0][1].file if bad else rf[0].file,
+          bad[0][1].line if bad else rf[0].line, config=config)
+    return len(seen)
